@@ -840,3 +840,39 @@ pub fn run_graph(line: &str) -> Result<String, String> {
 	}
 	Ok(w.s)
 }
+
+// ---------------------------------------------------------------------------------------------
+// Long reference chains (known finding D3b: recursion depth = chain length)
+
+/// `chain <n>`: a flat union of n records R_i { a: R_{i+1} } (the last one empty): a valid
+/// document of ~60 bytes per record whose reference chain has length n
+pub fn run_chain(line: &str) -> Result<String, String> {
+	let mut r = R::new(line);
+	let _ = r.tok()?;
+	let n = r.n()?;
+	let mut doc = String::from("[");
+	for i in 0..n {
+		if i > 0 {
+			doc.push(',');
+		}
+		if i + 1 < n {
+			doc.push_str(&format!(
+				r#"{{"type":"record","name":"R{i}","fields":[{{"name":"a","type":["null","R{}"]}}]}}"#,
+				i + 1
+			));
+		} else {
+			doc.push_str(&format!(r#"{{"type":"record","name":"R{i}","fields":[]}}"#));
+		}
+	}
+	doc.push(']');
+	Ok(match doc.parse::<serde_avro_fast::Schema>() {
+		Ok(s) => format!("ok {}", s.rabin_fingerprint().len()),
+		Err(_) => "err".into(),
+	})
+}
+
+pub fn generate_chain(emit: &mut dyn FnMut(String)) {
+	for n in [1usize, 10, 100, 1000, 50000] {
+		emit(format!("chain {n}"));
+	}
+}
